@@ -1550,3 +1550,255 @@ def ob_async_io(ctx, tier):
                 if not rw and pl is not io[0].ret:
                     c.fail(nm + "_result_not_passed_through", p)
     return c.res(allp, cfg)
+
+
+# ---------------------------------------------------------------- C05: timers (std BinaryHeap = events)
+HEAP = r"BinaryHeap::<(sources::timer::)?TimeoutData>::"
+
+
+def ob_wheel(ctx, tier):
+    """TimerWheel over std's BinaryHeap (trusted; its calls are events): next_expired pops iff the
+    top entry's deadline is <= now (now >= deadline) and returns the popped entry's counter/token;
+    cancel(c) pops the top iff its counter is c and otherwise ALWAYS filters the whole heap with
+    `counter != c`; insert pushes (deadline, token, current counter) and advances the counter by
+    one; insert_reuse pushes with the given counter; next_deadline peeks"""
+    c = Chk()
+    allp = []
+    f, paths, cfg = run_fn(ctx, r"::next_expired\(_1: &mut TimerWheel")
+    allp += paths
+    for p in paths:
+        pk = calls(p, HEAP + "peek$")
+        pop = calls(p, HEAP + "pop$")
+        ge = calls(p, r"<Instant as PartialOrd>::(ge|le|gt|lt)$")
+        if len(pk) != 1:
+            c.fail("next_expired_shape", p)
+            continue
+        c.witness = True
+        nonempty = entails(ctx, p.pc, dz(pk[0].ret.disc) == 1)[0]
+        if pop:
+            if not nonempty or len(ge) != 1 or not entails(ctx, p.pc, ge[0].ret)[0]:
+                c.fail("timer_popped_without_deadline_check", p)
+            else:
+                g = ge[0]
+                nm = g.callee.split("::")[-1]
+                a0, a1 = repr(g.args[0]), repr(g.args[1])
+                # `now >= deadline` (or the mirrored `deadline <= now`)
+                okcmp = (nm == "ge" and "now" in a0 and ("r%d@Some" % pk[0].idx) in a1) or \
+                        (nm == "le" and ("r%d@Some" % pk[0].idx) in a0 and "now" in a1)
+                if not okcmp:
+                    c.fail("expiry_comparison_is_not_now_ge_deadline", p)
+            if p.status == "return" and isinstance(p.ret, Enum) and p.ret.disc == 1:
+                tup = p.ret.payloads["Some"][0]
+                pd = pop[0].ret.payloads.get("Some", {}).get(0)
+                flds = tup.fields if isinstance(tup, Agg) else []
+                if not (pd is not None and len(flds) == 2 and any(x is y for x in flds for y in getattr(pd, "fields", {}).values())):
+                    c.fail("next_expired_does_not_return_the_popped_entry", p)
+        else:
+            if p.status == "return" and not (isinstance(p.ret, Enum) and entails(ctx, p.pc, dz(p.ret.disc) == 0)[0]):
+                c.fail("next_expired_some_without_pop", p)
+            if nonempty and ge and entails(ctx, p.pc, ge[0].ret)[0]:
+                c.fail("due_timer_not_popped", p)
+    f, paths, cfg = run_fn(ctx, r"::cancel\(_1: &mut TimerWheel")
+    allp += paths
+    for p in paths:
+        pk = calls(p, HEAP + "peek$")
+        pop = calls(p, HEAP + "pop$")
+        rt = calls(p, r"<TimeoutData>::retain::<|" + HEAP + r"retain")
+        if p.status != "return":
+            continue
+        if pop:
+            # only when the top entry's counter equals the argument
+            top = pk[0].ret.payloads.get("Some", {}).get(0) if pk else None
+            ctr = [v for v in z3util_vars(z3.And(*p.pc)) if str(v).startswith("i_") and "a2" in str(v)]
+            vs = z3util_vars(z3.And(*p.pc))
+            arg = [v for v in vs if z3.is_bv(v) and "_a2_" in str(v)]
+            topc = [v for v in vs if z3.is_bv(v) and ("r%d_Some" % pk[0].idx) in str(v)] if pk else []
+            if not arg or not topc or not entails(ctx, p.pc, arg[0] == topc[0])[0]:
+                c.fail("cancel_pops_without_matching_counter", p)
+            if rt:
+                pass
+        elif len(rt) != 1:
+            c.fail("cancel_skips_the_heap_scan", p)
+        else:
+            # the retain closure keeps exactly the entries whose counter differs
+            clos = rt[0].args[1]
+            cf = ctx.fns.get(None)
+    # the retain predicate
+    cl = [fn for fn in ctx.fns.values() if re.search(r"::cancel::\{closure#\d+\}", fn.name) and "TimeoutData" in fn.header and "-> bool" in fn.header]
+    okpred = False
+    for fn in cl:
+        fcl, cp, ccfg = run_fn(ctx, re.escape(fn.name) + r"\(")
+        for p in cp:
+            if p.status == "return" and z3.is_bool(p.ret):
+                vs = z3util_vars(p.ret)
+                s = z3.Solver()
+                if len(vs) == 2:
+                    s.add(p.ret != (vs[0] != vs[1]))
+                    ctx.queries += 1
+                    if s.check() == z3.unsat:
+                        okpred = True
+    if not okpred:
+        c.failing.append("cancel_filter_is_not_counter_inequality")
+    for nm, want_ctr_inc in (("insert", True), ("insert_reuse", False)):
+        f, paths, cfg = run_fn(ctx, r"::%s\(_1: &mut TimerWheel" % nm)
+        allp += paths
+        for p in paths:
+            if p.status == "panic":
+                continue
+            pu = calls(p, HEAP + "push$")
+            if len(pu) != 1:
+                c.fail(nm + "_does_not_push_exactly_once", p)
+                continue
+            td = pu[0].args[1]
+            if not isinstance(td, Agg) or len(td.fields) != 3:
+                c.fail(nm + "_pushes_something_else", p)
+                continue
+            names = getattr(td, "field_names", ["deadline", "token", "counter"])
+            ctr = td.fields[names.index("counter")]
+            dl = td.fields[names.index("deadline")]
+            if nm == "insert":
+                if "a2" not in repr(dl):
+                    c.fail("insert_deadline_is_not_the_argument", p)
+                # returns the counter used and advances by one
+                if not (z3.is_bv(p.ret) and entails(ctx, p.pc, p.ret == ctr)[0]):
+                    c.fail("insert_does_not_return_the_entry_counter", p)
+                try:
+                    wheel = p.frames[0].locals["_1"].value
+                    newc = wheel.pointee.value.fields[1]
+                    if not entails(ctx, p.pc, newc == ctr + 1)[0]:
+                        c.fail("insert_does_not_advance_the_counter", p)
+                except Exception:
+                    c.fail("insert_counter_not_found", p)
+            else:
+                if "a2" not in str(ctr) or "a3" not in repr(dl):
+                    c.fail("insert_reuse_does_not_use_given_counter_and_deadline", p)
+    return c.res(allp, cfg)
+
+
+def ob_timer(ctx, tier):
+    """Timer as an EventSource: register inserts the CURRENT deadline once and stores (token, wheel,
+    counter); a timer without deadline registers nothing; unregister takes the registration and
+    cancels exactly its counter (and nothing if not registered); reregister = unregister then
+    register; process_events: foreign token / no registration => Continue without callback;
+    otherwise exactly one callback with the current deadline; Drop => Remove; ToInstant(x) =>
+    insert_reuse(own counter, x, own token) and deadline := x, Continue; an unrepresentable
+    ToDuration => deadline := None and Remove"""
+    c = Chk()
+    allp = []
+    f, paths, cfg = run_fn(ctx, r"::register\(_1: &mut Timer,")
+    allp += paths
+    for p in paths:
+        ins = calls(p, r"TimerWheel::insert$")
+        if p.status != "return":
+            continue
+        timer = p.frames[0].locals["_1"].value.pointee.value
+        dl = timer.fields.get(1)
+        has = entails(ctx, p.pc, dz(disc_of(dl)) == 1)[0] if dl is not None else False
+        if has:
+            c.witness = True
+            if len(ins) != 1 or "a1.1@Some.0" not in repr(ins[0].args[1]):
+                c.fail("register_does_not_insert_current_deadline_once", p)
+            reg = timer.fields.get(0)
+            if not (isinstance(reg, Enum) and reg.disc == 1):
+                c.fail("register_does_not_record_registration", p)
+            else:
+                r = reg.payloads["Some"][0]
+                vals = r.fields if isinstance(r, Agg) else []
+                if not any(v is ins[0].ret for v in vals) or not any(v is ins[0].args[2] for v in vals):
+                    c.fail("registration_does_not_hold_the_inserted_counter_and_token", p)
+        elif ins:
+            c.fail("timer_without_deadline_registers", p)
+    f, paths, cfg = run_fn(ctx, r"::unregister\(_1: &mut Timer,")
+    allp += paths
+    for p in paths:
+        tk = [e for e in p.trace if e.kind == "take"]
+        cn = calls(p, r"TimerWheel::cancel$")
+        if len(tk) != 1:
+            c.fail("unregister_does_not_take_registration", p)
+            continue
+        was = entails(ctx, p.pc, dz(tk[0].ret.disc) == 1)[0]
+        if was:
+            if len(cn) != 1:
+                c.fail("unregister_does_not_cancel_once", p)
+            else:
+                regc = tk[0].ret.payloads["Some"][0]
+                ctrs = [v for v in (regc.fields.values() if isinstance(regc, Sym) else regc.fields) if z3.is_bv(v)]
+                if not any(cn[0].args[1] is v or (z3.is_bv(cn[0].args[1]) and z3.eq(cn[0].args[1], v)) for v in ctrs):
+                    c.fail("unregister_cancels_another_counter", p)
+        elif cn:
+            c.fail("unregistered_timer_cancels", p)
+    f, paths, cfg = run_fn(ctx, r"::reregister\(_1: &mut Timer,")
+    allp += paths
+    for p in paths:
+        if p.status != "return":
+            continue
+        un = calls(p, r" as (sources::)?EventSource>::unregister$")
+        rg = calls(p, r" as (sources::)?EventSource>::register$")
+        if len(un) != 1:
+            c.fail("reregister_does_not_unregister_first", p)
+        elif entails(ctx, p.pc, dz(un[0].ret.disc) == 0)[0] and (len(rg) != 1 or rg[0].idx < un[0].idx):
+            c.fail("reregister_does_not_register_after_unregister", p)
+    f, paths, cfg = run_fn(ctx, r"::process_events\(_1: &mut Timer,")
+    allp += paths
+    for p in paths:
+        if p.status != "return" or not ret_is(p, 0):
+            continue
+        cbs = [e for e in p.trace if is_cb(e)]
+        ir = calls(p, r"TimerWheel::insert_reuse$")
+        pa = ok_payload_disc(p.ret)
+        ne = calls(p, r"<(sys::)?Token as PartialEq>::(ne|eq)$")
+        if len(cbs) > 1:
+            c.fail("timer_callback_more_than_once_per_event", p)
+        if not cbs:
+            if ir or not entails(ctx, p.pc, dz(pa) == 0)[0]:
+                c.fail("ignored_event_has_effects", p)
+            continue
+        if not ne:
+            c.fail("timer_fires_without_comparing_tokens", p)
+        elif not entails(ctx, p.pc, z3.Not(ne[0].ret) if ne[0].callee.endswith("ne") else ne[0].ret)[0]:
+            c.fail("timer_fires_for_foreign_token", p)
+        if "a1.1@Some.0" not in repr(cbs[0].args[1]) and "@Some.0" not in repr(cbs[0].args[1]):
+            c.fail("timer_event_is_not_the_current_deadline", p)
+        act = cbs[0].ret
+        ad = disc_of(act)
+        if entails(ctx, p.pc, dz(ad) == 0)[0]:          # Drop
+            if ir or not entails(ctx, p.pc, dz(pa) == 3)[0]:
+                c.fail("drop_action_does_not_remove", p)
+        elif ir:
+            c.witness = True
+            if len(ir) != 1 or not entails(ctx, p.pc, dz(pa) == 0)[0]:
+                c.fail("reschedule_shape", p)
+            else:
+                timer = p.frames[0].locals["_1"].value.pointee.value
+                dl = timer.fields.get(1)
+                if not (isinstance(dl, Enum) and dl.disc == 1 and dl.payloads["Some"][0] is ir[0].args[2]):
+                    c.fail("deadline_not_updated_to_rescheduled_instant", p)
+                if "a1_0_Some" not in str(ir[0].args[1]):
+                    c.fail("reschedule_does_not_reuse_own_counter", p)
+        else:
+            # overflowed ToDuration
+            timer = p.frames[0].locals["_1"].value.pointee.value
+            dl = timer.fields.get(1)
+            if not (isinstance(dl, Enum) and dl.disc == 0) or not entails(ctx, p.pc, dz(pa) == 3)[0]:
+                c.fail("overflowed_reschedule_not_removed", p)
+    return c.res(allp, cfg)
+
+
+def ob_err2_batch(ctx, tier):
+    """when a source's processing fails, the events of the batch that were not dispatched yet are not
+    lost (expired timers were already popped from the wheel when the batch was collected, one-shot
+    readiness was already consumed)"""
+    f, paths, cfg = de_paths(ctx)
+    c = Chk()
+    for p in paths:
+        pes = proc_events(p)
+        if not pes or not isinstance(pes[0].ret, Enum):
+            continue
+        if not entails(ctx, p.pc, dz(pes[0].ret.disc) == 1)[0]:
+            continue
+        c.witness = True
+        # after the failing process_events: is the rest of the iterator consumed or stashed anywhere?
+        later = [e for e in p.trace[pes[0].idx + 1:] if is_call(e, r"Chain<.*> as Iterator>::(next|collect|for_each)|Vec::<PollEvent>::(extend|push|append)")]
+        if not later:
+            c.fail("batch_remainder_dropped_on_error", p)
+    return c.res(paths, cfg)
